@@ -57,6 +57,7 @@ type outcome struct {
 	status string
 	why    string
 	p      *rtpkg.Parsed
+	alt    bool // also round-tripped with the alternative elements (Tag, Dict)
 }
 
 func roundTrip(c Case) (outcome, error) { return roundTripX(c, true) }
@@ -84,6 +85,19 @@ func roundTripX(c Case, exclude bool) (outcome, error) {
 			}
 		}
 		return outcome{status: status, p: p}, err
+	}
+	// the documented alternative elements: Tag(map) for conventional struct tags, Values(Dict) for keyed
+	// composite literals whose keys are already in rendering order
+	alt := &recipe.Decisions{Draw: func(n int) int { return n - 1 }}
+	if q, st, _ := rtpkg.Translate(c.Name, []byte(c.Src), rootFor(c.Root), alt, true); st == rtpkg.OK && q.Stats.AltTag+q.Stats.AltDict > 0 {
+		out, err := rtpkg.Render(&recipe.Builder{}, q.Recipe)
+		if err != nil {
+			return outcome{status: status, p: p}, fmt.Errorf("File.Render failed for a valid program (struct tags through Tag, keyed literals through Dict): %s", rtpkg.Short(err.Error(), 1200))
+		}
+		if err := rtpkg.Compare(q.AST, out); err != nil {
+			return outcome{status: status, p: p, alt: true}, fmt.Errorf("with struct tags built through Tag and keyed literals through Dict: %v", err)
+		}
+		return outcome{status: status, p: p, alt: true}, nil
 	}
 	return outcome{status: status, p: p}, nil
 }
@@ -172,6 +186,9 @@ func TestC01Corpus(t *testing.T) {
 				}
 			default:
 				r.Class("round-tripped")
+				if oc.alt {
+					r.Class("round-tripped also with Tag/Dict elements")
+				}
 				if oc.p.Stats.Decls > 0 {
 					r.NonTrivial(string(c.Src))
 				}
